@@ -104,6 +104,18 @@ def catalogue(p):
                       [(f"{P}.macs.m1", M, ident), (f"{P}.macs.my-mac", ("macs", "my-mac"), ident),
                        (f"{P}.macs.☘", ("macs", "☘"), ident)],
                       keys=[f"{P}.macs.m1", f"{P}.macs.my-mac", f"{P}.macs.is-ok?", f"{P}.macs.☘"]))
+    # module prologues: whatever the module starts with (a docstring, an import of hy itself under another name, of a submodule of
+    # hy, a __future__ import), the names the compiled code needs at run time (hy.macros.require, hy.models for quoted forms, hy.eval)
+    # are there when the module is loaded from bytecode, where no compiler has put `hy` into the module beforehand
+    for tag, pro in (("import-hy-as", ["(import hy :as hylang)"]), ("docstring-import-hy-as", ['"module docstring"', "(import hy :as hylang)"]),
+                     ("import-hy", ["(import hy)"]), ("import-hy-submodule", ["(import hy.models)"]),
+                     ("import-hy-submodule-as", ["(import hy.models :as hm)"]), ("from-hy-import", ["(import hy [models])"]),
+                     ("future-import", ['"doc"', "(import __future__ [annotations])", "(import hy :as hylang)"]),
+                     ("import-other-as-hy-later", ["(import hy :as hylang)", "(setv q0 1)"])):
+        out.append(Client(f"prologue/{tag}", "c_pro_" + tag.replace("-", "_"), pro + [f"(require {P}.macs [m1 my-mac])"],
+                          [("m1", M, ident), ("my-mac", ("macs", "my-mac"), ident)],
+                          extra=["(setv quoted (hy.repr '(a b)))", "(defmacro own-mac [x] `(+ ~x 1))", "(setv own (own-mac 1))"],
+                          expect={"quoted": "'(a b)", "own": 2}, keys=["m1", "my-mac", "own-mac"]))
     out.append(Client("as", "c_as", [f"(require {P}.macs :as M)"],
                       [("M.m1", M, ident), ("M.is-ok?", ("macs", "is-ok?"), ident)],
                       keys=["M.m1", "M.my-mac", "M.is-ok?", "M.☘"]))
